@@ -174,8 +174,11 @@ class QsysResult:
 
         """
         shot_dct: dict[str, list[str]] = defaultdict(list)
-        for shot in self.results:
+        for shot_idx, shot in enumerate(self.results):
             bitstrs = shot.to_register_bits()
+            if strict_names and shot_idx > 0 and bitstrs.keys() != shot_dct.keys():
+                msg = "All shots must have the same registers."
+                raise ValueError(msg)
             for reg, bitstr in bitstrs.items():
                 if (
                     strict_lengths
@@ -185,9 +188,6 @@ class QsysResult:
                     msg = "All register bitstrings must have the same length."
                     raise ValueError(msg)
                 shot_dct[reg].append(bitstr)
-            if strict_names and bitstrs.keys() != shot_dct.keys():
-                msg = "All shots must have the same registers."
-                raise ValueError(msg)
         return dict(shot_dct)
 
     def to_pytket(self) -> BackendResult:
